@@ -53,6 +53,9 @@ def classify(tags, dialect, missing, unexpected, exp):
     # KF-01 seen from the column side: the alias of a relation lost by a mixed comma/JOIN FROM clause falls through to a table name
     if "from.mixed_comma_join" in t:
         return "KF-01"
+    # KF-36: the alias of the first relation inside a parenthesised join group is not registered: its qualifier falls through to a table name
+    if "join.parenthesised_group_first_aliased" in t and unexpected and all(u[0].startswith("<default>.x") or u[0].startswith("<") for u in unexpected):
+        return "KF-36"
     # KF-05: a set operation whose first branch has a source-less (literal) item mis-attributes later branches
     if "setop.first_branch_literal" in t:
         return "KF-05"
